@@ -645,14 +645,20 @@ func checkC10(e *Engine, r *Report) {
 				}
 			}
 			wrote := false
+			var wroteAt []ssa.Instruction
 			AllInstrs(restore, func(in ssa.Instruction) {
 				if stv, ok := in.(*ssa.Store); ok && cf != nil && fieldOfAddr(stv.Addr) == cf {
 					if g, _ := loadedField(stv.Val); g == f {
 						wrote = true
+						wroteAt = append(wroteAt, in)
 					}
 				}
 			})
-			r.Check("R9:restore-writes#"+f.Name(), "R9 field coverage", "Restore stores snapshot."+f.Name()+" into cache."+f.Name(), e.Pos(restore.Pos()), restore, wrote, "", true)
+			wWhy := ""
+			if sp := e.skippedOnSuccess(restore, wroteAt...); wrote && sp != nil {
+				wrote, wWhy = false, "a successful Restore can skip the store: "+e.pathString(sp)
+			}
+			r.Check("R9:restore-writes#"+f.Name(), "R9 field coverage", "every successful Restore stores snapshot."+f.Name()+" into cache."+f.Name(), e.Pos(restore.Pos()), restore, wrote, wWhy, true)
 		}
 		// every persisted exported field of cache is in the snapshot
 		for j := 0; j < cst.NumFields(); j++ {
